@@ -3,6 +3,7 @@
 from __future__ import annotations
 
 import ast
+import re
 from typing import Any, Dict, List, Optional, Sequence, Set, Tuple
 
 from .efflib import VALUE_KINDS, catches, kind_is
@@ -13,10 +14,19 @@ from .model import dotted, strip_cast
 DYN_PARAM_MODULES = {"celtypes"}
 
 
+def leaf_label(why: str) -> str:
+    """The origin of an effect, free of line numbers: the last link of the witness chain."""
+    last = why.split(" <- ")[-1]
+    last = re.sub(r":\d+\b", "", last)
+    last = re.sub(r" (at )?line \d+", "", last)
+    last = last.split(" lacks [")[0]
+    return last.strip()[:120]
+
+
 class TryFrame:
     def __init__(self, handlers: List[Optional[List[str]]]):
         self.handlers = handlers  # per handler: class names, None = bare except
-        self.arrivals: List[Set[Tuple[str, str, str]]] = [set() for _ in handlers]
+        self.arrivals: List[Set[Tuple[str, str, str, Tuple]]] = [set() for _ in handlers]
 
 
 class Walker(ExprMixin):
@@ -82,17 +92,21 @@ class Walker(ExprMixin):
             self.env[a.kwarg.arg] = Val(kinds=FS({"dict"}), elem=DYN, lit=True, pos={0: (of_kind("str"),)})
 
     # -- effects ---------------------------------------------------------
-    def raise_(self, exc: str, why: str, tag: str = "") -> None:
-        """An exception of class ``exc`` arises here; route it through the enclosing handlers."""
+    def raise_(self, exc: str, why: str, tag: str = "", src: Optional[Tuple] = None) -> None:
+        """An exception of class ``exc`` arises here; route it through the enclosing handlers.
+        ``src`` says where it comes from: a callee context's effect, or (default) this very site."""
         tag = tag or self.tag
+        if src is None:
+            src = ("leaf", leaf_label(why))
         for frame in reversed(self.tries):
             for i, h in enumerate(frame.handlers):
                 if h is None or any(catches(c, exc) for c in h):
-                    frame.arrivals[i].add((exc, tag, why))
+                    frame.arrivals[i].add((exc, tag, why, src))
                     if exc != "<reraise>":
                         self.eng.caught.add((self.cv.label(), exc))
                     return
         eff = (exc, tag)
+        self.eng.srcs.setdefault((self.key, eff), set()).add(src)
         if eff not in self.effs:
             self.effs.add(eff)
             self.eng.why.setdefault((self.key, eff), why)
@@ -103,7 +117,7 @@ class Walker(ExprMixin):
             parts = [label] + (inner.split(" <- ") if inner else [])
             if len(parts) > 7:
                 parts = parts[:2] + ["..."] + parts[-4:]
-            self.raise_(exc, " <- ".join(parts), tag)
+            self.raise_(exc, " <- ".join(parts), tag, ("ctx", callee_key, (exc, tag)) if callee_key else None)
 
     # -- run -------------------------------------------------------------
     def run(self) -> Tuple[Set[Tuple[str, str]], Val]:
@@ -336,16 +350,16 @@ class Walker(ExprMixin):
             done = self.block(h.body)
             if marker in self.effs:
                 self.effs.discard(marker)
-                for exc, tag, why in sorted(arrivals):
-                    self.raise_(exc, why, tag)
+                for exc, tag, why, src in sorted(arrivals, key=lambda a: a[:3]):
+                    self.raise_(exc, why, tag, src)
             # a handler nested in an outer try may have routed "<reraise>" into an outer frame
             for fr in self.tries:
                 for arr in fr.arrivals:
                     stale = {a for a in arr if a[0] == "<reraise>"}
                     if stale:
                         arr -= stale
-                        for exc, tag, why in sorted(arrivals):
-                            self.raise_(exc, why, tag)
+                        for exc, tag, why, src in sorted(arrivals, key=lambda a: a[:3]):
+                            self.raise_(exc, why, tag, src)
             self.env = {k: saved.get(k, v).join(v) if k in saved else v for k, v in self.env.items()}
             all_done = all_done and done
         if st.finalbody:
